@@ -90,3 +90,148 @@ package exec
 //@   property C04
 //@   uses values
 //@   ensures r == toBool(VStr(n))
+
+// ---------- assumed contracts of store.Cursor (A-CUR: pure accessors of a finite ordered tree) ----------
+
+//@ extern store.Cursor.Pos(c) (r)
+//@   pure
+//@   uses tree
+//@   ensures r == pos(c)
+
+//@ extern store.Cursor.Parent(c) (r)
+//@   pure
+//@   uses tree
+//@   ensures r == parent(c)
+
+//@ extern store.Cursor.Children(c) (r)
+//@   pure
+//@   uses tree
+//@   ensures r == children(c)
+
+//@ extern store.Cursor.Attributes(c) (r)
+//@   pure
+//@   uses tree
+//@   ensures r == attrs(c)
+
+//@ extern store.Cursor.Namespaces(c) (r)
+//@   pure
+//@   uses tree
+//@   ensures r == nss(c)
+
+//@ extern store.Cursor.Node(c) (r)
+//@   pure
+//@   uses tree
+//@   ensures r == nodeOf(c)
+
+// ---------- exec/axisselectors.go ----------
+
+//@ func unique(s) (r)
+//@   property C03 C01 C13 C15
+//@   uses nodeset
+//@   requires nodes(s)
+//@   requires asc(s) || desc(s)                                              @sorted
+//@   ensures nodes(r)                                                        @nodes
+//@   ensures forall k Int :: 0 <= k && k < len(r) ==> mem(s, r[k])           @only-from-s
+//@   ensures forall j Int :: 0 <= j && j < len(s) ==> mem(r, s[j])           @nothing-lost
+//@   ensures asc(s) ==> sasc(r)                                              @strict-asc
+//@   ensures desc(s) ==> sdesc(r)                                            @strict-desc
+//@   ensures len(r) <= len(s)
+//@   ensures len(s) > 0 ==> fresh(r)                                         @fresh
+//@   ensures len(s) == 0 ==> r == s
+//@   loop 0
+//@     invariant 1 <= i && i <= len(s) && 1 <= len(ret) && len(ret) <= i && len(ret) <= cap(ret) && fresh(ret)
+//@     invariant nodes(ret)
+//@     invariant ret[len(ret)-1] == s[i-1]
+//@     invariant forall k Int :: 0 <= k && k < len(ret) ==> mem(s, ret[k])
+//@     invariant forall j Int :: 0 <= j && j < i ==> mem(ret, s[j])
+//@     invariant asc(s) ==> sasc(ret)
+//@     invariant desc(s) ==> sdesc(ret)
+//@     decreases len(s) - i
+
+//@ func forwardSort.Len(a) (r)
+//@   property C03
+//@   ensures r == len(a)
+
+//@ func forwardSort.Swap(a, i, j) ()
+//@   property C03 C13
+//@   uses nodeset
+//@   requires 0 <= i && i < len(a) && 0 <= j && j < len(a)
+//@   modifies arr(a)
+//@   ensures a[i] == old(a[j]) && a[j] == old(a[i])
+//@   ensures forall k Int :: 0 <= k && k < len(a) && k != i && k != j ==> a[k] == old(a[k])
+
+//@ func forwardSort.Less(a, i, j) (r)
+//@   property C03
+//@   uses nodeset
+//@   requires nodes(a) && 0 <= i && i < len(a) && 0 <= j && j < len(a)
+//@   ensures r == (pos(a[i]) < pos(a[j]))                                    @document-order
+
+//@ func backwardSort.Len(a) (r)
+//@   property C03
+//@   ensures r == len(a)
+
+//@ func backwardSort.Swap(a, i, j) ()
+//@   property C03 C13
+//@   uses nodeset
+//@   requires 0 <= i && i < len(a) && 0 <= j && j < len(a)
+//@   modifies arr(a)
+//@   ensures a[i] == old(a[j]) && a[j] == old(a[i])
+//@   ensures forall k Int :: 0 <= k && k < len(a) && k != i && k != j ==> a[k] == old(a[k])
+
+//@ func backwardSort.Less(a, i, j) (r)
+//@   property C03
+//@   uses nodeset
+//@   requires nodes(a) && 0 <= i && i < len(a) && 0 <= j && j < len(a)
+//@   ensures r == (pos(a[i]) > pos(a[j]))                                    @reverse-document-order
+
+// sort.Sort is assumed to permute its argument in place (through Swap) into an order in which
+// Less(j, i) is false for i < j; Len/Swap/Less of the two sorter types are verified above.
+
+//@ extern sort.Sort[exec.forwardSort](a) ()
+//@   uses nodeset
+//@   modifies arr(a)
+//@   ensures asc(a)
+//@   ensures old(nodes(a)) ==> nodes(a)
+//@   ensures forall n Cursor :: mem(a, n) == old(mem(a, n))
+
+//@ extern sort.Sort[exec.backwardSort](a) ()
+//@   uses nodeset
+//@   modifies arr(a)
+//@   ensures desc(a)
+//@   ensures old(nodes(a)) ==> nodes(a)
+//@   ensures forall n Cursor :: mem(a, n) == old(mem(a, n))
+
+//@ func cleanupForwardAxis(x) (r)
+//@   property C03 C01 C13
+//@   uses nodeset
+//@   requires nodes(x)
+//@   modifies arr(x)
+//@   ensures nodes(r) && sasc(r)                                             @ascending
+//@   ensures forall n Cursor :: mem(r, n) == old(mem(x, n))                  @same-set
+//@   ensures len(x) > 0 ==> fresh(r)
+//@   ensures len(x) == 0 ==> r == x
+
+//@ func cleanupBackwardAxis(x) (r)
+//@   property C03 C01 C13
+//@   uses nodeset
+//@   requires nodes(x)
+//@   modifies arr(x)
+//@   ensures nodes(r) && sdesc(r)                                            @descending
+//@   ensures forall n Cursor :: mem(r, n) == old(mem(x, n))                  @same-set
+//@   ensures len(x) > 0 ==> fresh(r)
+//@   ensures len(x) == 0 ==> r == x
+
+//@ func selectChild(nodeSet) (r)
+//@   property C01 C03 C13 C15
+//@   uses axes
+//@   requires nodes(nodeSet)
+//@   ensures isVSet(r) && nodes(vset(r)) && sasc(vset(r))                                                          @ascending
+//@   ensures len(vset(r)) > 0 ==> fresh(vset(r))                                                                   @fresh
+//@   ensures forall n Cursor :: mem(vset(r), n) ==> exists k Int :: 0 <= k && k < len(nodeSet) && isChild(nodeSet[k], n)   @only-children
+//@   ensures forall k Int, n Cursor :: 0 <= k && k < len(nodeSet) && isChild(nodeSet[k], n) ==> mem(vset(r), n)            @all-children
+//@   loop 0
+//@     invariant 0 - 1 <= #k && #k < len(nodeSet) || (len(nodeSet) == 0 && #k == 0 - 1)
+//@     invariant fresh(result) && nodes(result) && 0 <= len(result) && len(result) <= cap(result)
+//@     invariant forall n Cursor :: mem(result, n) ==> exists j Int :: 0 <= j && j <= #k && isChild(nodeSet[j], n)
+//@     invariant forall j Int, n Cursor :: 0 <= j && j <= #k && isChild(nodeSet[j], n) ==> mem(result, n)
+//@     decreases len(nodeSet) - #k
